@@ -36,7 +36,7 @@ theorem edge_sync {tr : Trace} {i j : Nat} {a b : Event} {μa μb : Mode} (hij :
 /-- Lock hand-over: if `ta` holds `m` at its access `i`, another thread `tb` holds `m` at its
 later access `j`, and at least one of the two holds it exclusively, then `i` happens before `j`
 (through `ta`'s release and `tb`'s acquire). -/
-theorem hb_of_locks {tr : Trace} (wf : WF tr) {i j : Nat} {a b : Event} {m : String} {μa μb : Mode}
+theorem hb_of_locks {tr : Trace} (wf : WF tr) {i j : Nat} {a b : Event} {m : Nat} {μa μb : Mode}
     (hij : i < j) (ha : tr[i]? = some a) (hb : tr[j]? = some b) (hne : a.tid ≠ b.tid)
     (hacc : a.isAccess)
     (hA : holdsAt tr i a.tid m μa) (hB : holdsAt tr j b.tid m μb) (hx : μa = .ex ∨ μb = .ex) :
@@ -146,5 +146,46 @@ theorem hb_of_postJoin {tr : Trace} (wf : WF tr) {i j : Nat} {a b : Event} (ha :
   have e1 : Edge tr i s := ⟨his, a, ha, jn, hjn, Or.inr (Or.inr (Or.inr ⟨hop, harg.symm⟩))⟩
   have e2 : Edge tr s j := edge_po hsj hjn hb htid
   exact ⟨Nat.lt_trans his hsj, .step e1 (.base e2)⟩
+
+/-- `checkFrom` with a consistent cache is `factOK ∨ isKnown` on every fact. -/
+theorem checkFrom_iff (disc : List (Nat × LDisc)) (roles : List (Nat × Role))
+    (known : List (Nat × Nat × AKind)) (fs : List Fact) :
+    ∀ cache : Option (Nat × Option LDisc), (∀ l d, cache = some (l, d) → d = lookup disc l) →
+      (checkFrom disc roles known cache fs = true ↔
+        ∀ f, f ∈ fs → (factOK disc roles f || isKnown known f) = true) := by
+  induction fs with
+  | nil => intro cache _; simp [checkFrom]
+  | cons f fs ih =>
+    intro cache hc
+    have hd : (match cache with
+        | some (l, d) => if l == f.loc then d else lookup disc f.loc
+        | none => lookup disc f.loc) = lookup disc f.loc := by
+      cases cache with
+      | none => rfl
+      | some ld =>
+        obtain ⟨l, d⟩ := ld
+        by_cases h : (l == f.loc) = true
+        · have hl : l = f.loc := by simpa using h
+          have hd' := hc l d rfl
+          rw [hl] at hd'
+          simp only [h, if_true]
+          exact hd'
+        · simp only [h]
+          rfl
+    unfold checkFrom
+    simp only [hd, Bool.and_eq_true, List.mem_cons]
+    rw [ih (some (f.loc, lookup disc f.loc)) (by
+      intro l d h
+      cases h
+      rfl)]
+    constructor
+    · rintro ⟨h1, h2⟩ g hg
+      rcases hg with rfl | hg
+      · simpa [factOK] using h1
+      · exact h2 g hg
+    · intro h
+      refine ⟨?_, fun g hg => h g (Or.inr hg)⟩
+      have := h f (Or.inl rfl)
+      simpa [factOK] using this
 
 end Refinery.Locks
